@@ -13,6 +13,7 @@ open PyGql PyGql.Depth
   answer   {"acyclic":bool,"fuel":n,"spec":[depth per op],
             "rule":[[flagged op indices] | "err:<kind>"  per grid entry],
             "rulev":[same for the model of the rule after C19-Q1vars.patch (variables coerced per operation)],
+            "ruler":[same for `ruleR`: request key "raw" = arbitrary JSON request variables, "vd" entries carry "ty":"b"|"i"],
             "pipeline":["executed"|"rejected-depth"|"rejected-other"|"err:<kind>" per grid entry; request key "derr" = number of
                         errors of the default validator] (model of graphql_blocking(validators=[default_validator, rule])),
             "orig":[same for the model of the unchanged rule],
@@ -47,6 +48,26 @@ def varDefsOfJson (j : J) : List (List VarDef) :=
   (j.arrD "ops").map fun o => (o.arrD "vd").map fun d =>
     { name := d.strD "n", nonNull := d.boolD "nn", default := (d.getD "d").asBool? }
 
+def rawValOfJson : J → RawVal
+  | .bool b => .bool b
+  | .null => .null
+  | .num n => .int n
+  | .str s => .str s
+  | .arr a => .list (!a.isEmpty)
+  | .obj kvs => .list (!kvs.isEmpty)
+
+def rawVarsOfJson (j : J) : RawVars :=
+  match j with
+  | .obj kvs => kvs.map fun (k, v) => (k, rawValOfJson v)
+  | _ => []
+
+def varDefsROfJson (j : J) : List (List VarDefR) :=
+  (j.arrD "ops").map fun o => (o.arrD "vd").map fun d =>
+    { name := d.strD "n", ty := if d.strD "ty" == "i" then .int else .boolean, nonNull := d.boolD "nn",
+      default := match d.getD "d" with
+        | .null => none
+        | v => some (rawValOfJson v) }
+
 def varsOfJson (j : J) : Vars :=
   match j with
   | .obj kvs => kvs.filterMap fun (k, v) => v.asBool?.map fun b => (k, b)
@@ -79,6 +100,7 @@ def handle (j : J) : J :=
       ("spec", .arr (doc.ops.map fun op => J.ofNat (DepthSpec.depth doc vars op))),
       ("rule", .arr (grid.map fun (f, l) => resJ (rule fuel l f doc vars))),
       ("rulev", .arr (grid.map fun (f, l) => resJ (ruleV fuel l f doc (varDefsOfJson (j.getD "doc")) vars))),
+      ("ruler", .arr (grid.map fun (f, l) => resJ (ruleR fuel l f doc (varDefsROfJson (j.getD "doc")) (rawVarsOfJson (j.getD "raw"))))),
       ("pipeline", .arr (grid.map fun (f, l) =>
         match pipeline fuel l f doc (varDefsOfJson (j.getD "doc")) vars (j.natD "derr") with
         | .raised e => errJ e
